@@ -2,6 +2,7 @@ package interp
 
 import (
 	"bytes"
+	"encoding/base64"
 	"encoding/json"
 	"fmt"
 	"go/types"
@@ -204,7 +205,16 @@ func (e *jsonEnc) marshal(t types.Type, v value) {
 			return
 		}
 		if b, ok := u.Elem().Underlying().(*types.Basic); ok && b.Kind() == types.Uint8 {
-			Unsupported("json: []byte (base64)")
+			raw := make([]byte, len(s))
+			for k, x := range s {
+				c, conc := x.(uint8)
+				if !conc {
+					Unsupported("json: []byte with symbolic bytes (base64)")
+				}
+				raw[k] = c
+			}
+			e.ws(`"` + base64.StdEncoding.EncodeToString(raw) + `"`)
+			return
 		}
 		e.ws("[")
 		for k, x := range s {
